@@ -701,6 +701,11 @@ func TestC18(t *testing.T) {
 	nr := r.N(1600, 40000)
 	r.Cases(nr, 0, func(idx int) { runnerLineage(r, idx) })
 	t2 := time.Now()
+	r.Cases(legacyBase+r.N(24, 400), 0, func(idx int) {
+		if idx >= legacyBase {
+			legacyLineage(r, idx-legacyBase)
+		}
+	})
 	if !r.Skip(-1) {
 		refusalMatrix(r)
 	}
